@@ -261,8 +261,8 @@ def decoder_rules(ctx, R, skip_d3=False):
     if not acc_block:
         raise AnalysisError("D3", "assembler: accumulation of the block reader's result not recognised")
     if acc_block & acc_line:
-        ctx.violation("D3", asm, "literal-merged-into-lines", "literal payload and the text of protocol lines are concatenated into the same "
-                      "buffer (%s) and later re-split by lines and quotes" % sorted(acc_block & acc_line), node=asm.node,
+        ctx.violation("D3", "Client.<response assembler>", "literal-merged-into-lines", "literal payload and the text of protocol lines are concatenated into the same "
+                      "buffer (%s) and later re-split by lines and quotes" % sorted(acc_block & acc_line), node=asm.node, file=asm.file,
                       witness="LISTSCRIPTS reply `{6}\\r\\nscript ACTIVE\\r\\n`: the active script is reported as a script named 'script ACTIVE'")
     else:
         ctx.holds("D3", "literal payload accumulated separately")
